@@ -36,15 +36,15 @@ type TableFunc struct {
 }
 
 type Global struct {
-	fset      *token.FileSet
-	pkgs      map[string]*packages.Package // by package name
-	cs        *ContractSet
-	funcs     map[string]*FuncInfo
-	funcByObj map[*types.Func]*FuncInfo
-	tables    []*TableFunc
-	tableByFn map[string]*TableFunc
-	repo      string
-	verifDir  string
+	fset           *token.FileSet
+	pkgs           map[string]*packages.Package // by package name
+	cs             *ContractSet
+	funcs          map[string]*FuncInfo
+	funcByObj      map[*types.Func]*FuncInfo
+	tables         []*TableFunc
+	tableByFn      map[string]*TableFunc
+	repo           string
+	verifDir       string
 	contractSource map[string]string // pkg -> path used
 }
 
@@ -221,12 +221,12 @@ func (g *Global) findTable(fi *FuncInfo) {
 // ---------- per-function driver ----------
 
 type FuncResult struct {
-	Key         string
-	Obligations []*Obligation
+	Key           string
+	Obligations   []*Obligation
 	OutsideSubset string
-	Ctx         *Ctx
-	Used        map[string]bool
-	Trusted     bool
+	Ctx           *Ctx
+	Used          map[string]bool
+	Trusted       bool
 }
 
 func (g *Global) verifyFunc(key string) (res *FuncResult) {
@@ -769,7 +769,6 @@ func (x *Exec) execRangeMap(n *ast.RangeStmt, m Val, keyObj, valObj types.Object
 	return Flow{normal: x.merge(exit, f.brk), ret: f.ret}
 }
 
-
 // verifyLemma checks a closed lemma over spec functions and inlined table builders.
 func (g *Global) verifyLemma(l *Lemma) *FuncResult {
 	key := "lemma." + l.Name
@@ -814,7 +813,6 @@ func (g *Global) verifyLemma(l *Lemma) *FuncResult {
 	return res
 }
 
-
 // errVarInitNonNil: the package-level variable is declared with an errors.New / fmt.Errorf initialiser and is never assigned.
 func (g *Global) errVarInitNonNil(v *types.Var) bool {
 	for _, p := range g.pkgs {
@@ -851,7 +849,6 @@ func (g *Global) errVarInitNonNil(v *types.Var) bool {
 	}
 	return false
 }
-
 
 // execPrefix executes the top-level statements of an orchestration function up to (not including) the first statement
 // that is outside the sequential subset (go, select, …). Obligations and point assertions met on the way are genuine;
